@@ -6,7 +6,7 @@ import "github.com/go-gts/gts/seqio"
 
 const c16HaveInternals = true
 
-func c16Fast(p []byte, n int) error            { return seqio.VerifFastOrigin(p, n) }
-func c16Slow(p []byte, n int) ([]byte, error)  { return seqio.VerifSlowOrigin(p, n) }
-func c16ToLen(n int) int                       { return seqio.VerifToOriginLength(n) }
-func c16FromLen(n int) int                     { return seqio.VerifFromOriginLength(n) }
+func c16Fast(p []byte, n int) error           { return seqio.VerifFastOrigin(p, n) }
+func c16Slow(p []byte, n int) ([]byte, error) { return seqio.VerifSlowOrigin(p, n) }
+func c16ToLen(n int) int                      { return seqio.VerifToOriginLength(n) }
+func c16FromLen(n int) int                    { return seqio.VerifFromOriginLength(n) }
